@@ -82,7 +82,7 @@ from xdsl.dialects.builtin import (
 from xdsl.ir import Attribute, Data, ParametrizedAttribute, TypeAttribute
 from xdsl.ir.affine import AffineMap, AffineSet
 from xdsl.irdl import base
-from xdsl.utils.exceptions import ParseError, VerifyException
+from xdsl.utils.exceptions import DiagnosticException, ParseError, VerifyException
 from xdsl.utils.hints import isa
 from xdsl.utils.lexer import Position, Span
 from xdsl.utils.mlir_lexer import MLIRTokenKind, StringLiteral
@@ -282,15 +282,23 @@ class AttrParser(BaseParser):
                 body = self._parse_dialect_symbol_body()
             return attr_def(attr_name, is_type, is_opaque, body)
 
-        elif issubclass(attr_def, ParametrizedAttribute):
-            param_list = attr_def.parse_parameters(self)
-            return attr_def.new(param_list)
-        elif issubclass(attr_def, Data):
-            _attr_def = cast(type[Data[Any]], attr_def)
-            param = _attr_def.parse_parameter(self)
-            return _attr_def(param)
-        else:
-            raise TypeError("Attributes are either ParametrizedAttribute or Data.")
+        try:
+            if issubclass(attr_def, ParametrizedAttribute):
+                param_list = attr_def.parse_parameters(self)
+                return attr_def.new(param_list)
+            elif issubclass(attr_def, Data):
+                _attr_def = cast(type[Data[Any]], attr_def)
+                param = _attr_def.parse_parameter(self)
+                return _attr_def(param)
+        except (ParseError, DiagnosticException, RecursionError, MemoryError):
+            raise
+        except Exception as err:
+            # An error raised by the custom parser of the attribute or type: report
+            # it as a diagnostic at the current position.
+            self.raise_error(
+                f"Error while parsing '{attr_name}': {type(err).__name__}: {err}"
+            )
+        raise TypeError("Attributes are either ParametrizedAttribute or Data.")
 
     @overload
     def _parse_extended_type_or_attribute(
